@@ -1,7 +1,7 @@
 (* Dispatch from operation names to the model, and the acceptance test applied to the implementation's
    answer: outputs must be one of the accepted outcomes and status-out = status-in OR raised flags. *)
 From Coq Require Import ZArith Bool List.
-From DV Require Import Base Bid Arith OpsArith.
+From DV Require Import Base Bid Arith OpsArith OpsCmp OpsMisc OpsConv OpsStr.
 Import ListNotations.
 Open Scope Z_scope.
 
@@ -9,7 +9,48 @@ Inductive expect :=
 | Exact (l : list outcome)                          (* finite list of accepted (outputs, raised flags) *)
 | Pred (p : list Z -> bool) (fls : list Z).         (* any outputs satisfying p, with one of these flag sets *)
 
-Inductive op := OAdd | OSub | OMul | ODiv | OSqrt | OFma.
+Inductive op :=
+| OAdd | OSub | OMul | ODiv | OSqrt | OFma
+| OQuantize | ORem | OFmod | OFdim
+| ORint | ONearbyint | ORintFix (m:rmode) | OModf | OFrexp
+| ONextUp | ONextDown | ONextAfter
+| OMinMax (k:mmkind)
+| OScaleb (w:Z) | OLogb | OIlogb | OQuantexp | OLlquantexp | OQuantum | OSameQuantum
+| OTotalOrder | OTotalOrderMag | OClass | OIsx | OAbs | ONeg | OCopy | OCopySign
+| OEncodeDpd | ODecodeDpd
+| OFromBin (ebits fbits : Z) (use_mode:bool)
+| OFromInt (w:Z) (signed:bool)
+| OToInt (w:Z) (signed:bool) (m:rmode) (xflag:bool)
+| OLrint | OLround
+| OCmp | OOps | OHashEq | OHashSet
+| OParse | OFromStr | OFromStr2 | OFmt | OSerde
+| OOpArith (o:op) | OOpNeg | OSum | OProduct
+| OConsts.
+
+Definition any_out (_ : list Z) : bool := true.
+
+Definition of_kind (e:expect_kind) : expect := match e with EList l => Exact l | EAny => Pred any_out [0] end.
+
+Definition arith2 (o:op) (md:rmode) (x y : Z) : list outcome :=
+  match o with
+  | OAdd => m_add md x y | OSub => m_sub md x y | OMul => m_mul md x y | ODiv => m_div md x y
+  | ORem => rem_dec true x y
+  | _ => []
+  end.
+
+(* operator forms: RNE, private zero status word, the flags are discarded; n copies of the result *)
+Definition repeat_out (n:nat) (l : list outcome) : list outcome :=
+  map (fun o => (concat (repeat (fst o) n), 0)) l.
+
+(* left fold of a binary operation at RNE over the argument list, tracking every acceptable value *)
+Fixpoint fold_ops (o:op) (accs : list Z) (args : list Z) : list Z :=
+  match args with
+  | [] => accs
+  | a :: r => fold_ops o (flat_map (fun acc => flat_map (fun oc => fst oc) (arith2 o RNE acc a)) accs) r
+  end.
+
+Definition ZERO_BITS := encode (Fin false 0 0).
+Definition ONE_BITS := encode (Fin false 1 0).
 
 Definition expected (o:op) (md:rmode) (args:list Z) : expect :=
   match o, args with
@@ -19,6 +60,72 @@ Definition expected (o:op) (md:rmode) (args:list Z) : expect :=
   | ODiv, [x; y] => Exact (m_div md x y)
   | OSqrt, [x] => Exact (m_sqrt md x)
   | OFma, [x; y; z] => Exact (m_fma md x y z)
+  | OQuantize, [x; y] => Exact (m_quantize md x y)
+  | ORem, [x; y] => Exact (rem_dec true x y)
+  | OFmod, [x; y] => Exact (rem_dec false x y)
+  | OFdim, [x; y] => Exact (m_fdim md x y)
+  | ORint, [x] => Exact (rint_dec md true x)
+  | ONearbyint, [x] => Exact (rint_dec md false x)
+  | ORintFix m, [x] => Exact (rint_dec m false x)
+  | OModf, [x] => Exact (m_modf x)
+  | OFrexp, [x] => of_kind (m_frexp x)
+  | ONextUp, [x] => Exact (m_next_up x)
+  | ONextDown, [x] => Exact (m_next_down x)
+  | ONextAfter, [x; y] => Exact (m_next_after x y)
+  | OMinMax k, [x; y] => Exact (m_minmax k x y)
+  | OScaleb w, [x; n] => Exact (m_scaleb md x (sint w n))
+  | OLogb, [x] => Exact (m_logb x)
+  | OIlogb, [x] => Exact (m_ilogb x)
+  | OQuantexp, [x] => Exact (m_quantexp x)
+  | OLlquantexp, [x] => Exact (m_llquantexp x)
+  | OQuantum, [x] => of_kind (m_quantum x)
+  | OSameQuantum, [x; y] => Exact (m_same_quantum x y)
+  | OTotalOrder, [x; y] => Exact (m_total_order x y)
+  | OTotalOrderMag, [x; y] => Exact (m_total_order_mag x y)
+  | OClass, [x] => Exact (m_class x)
+  | OIsx, [x] => Exact (m_isx x)
+  | OAbs, [x] => Exact (m_abs x)
+  | ONeg, [x] => Exact (m_neg x)
+  | OCopy, [x] => Exact (m_copy x)
+  | OCopySign, [x; y] => Exact (m_copysign x y)
+  | OEncodeDpd, [x] => Exact (m_encode_dpd x)
+  | ODecodeDpd, [x] => Exact (m_decode_dpd x)
+  | OFromBin eb fb use_mode, [b] =>
+      match m_from_bin eb fb (if use_mode then md else RNE) b with
+      | BList l => if use_mode then Exact l else Exact (map (fun oc => (fst oc, 0)) l)
+      | BNaN s fl => Pred (is_canonical_qnan_of_sign s) [if use_mode then fl else 0]
+      end
+  | OFromInt w sg, [v] => Exact (m_from_int w sg v)
+  | OToInt w sg m xf, [x] => Exact (m_to_int w sg m xf x)
+  | OLrint, [x] => Exact (m_to_int 64 true md true x)
+  | OLround, [x] => Exact (m_to_int 64 true RNA false x)
+  | OCmp, [x; y; i] => Exact (m_cmp x y i)
+  | OOps, [x; y] => Exact (m_ops x y)
+  | OHashEq, [x; y] => Pred (fun outs => match outs with [same] => m_hasheq x y same | _ => false end) [0]
+  | OHashSet, [x; y] => Exact [([b2z (m_eq (decode x) (decode y))], 0)]
+  | OParse, l =>
+      match m_parse md l with
+      | SList ol => Exact ol
+      | SGarbage => Pred is_default_qnan [0]
+      | SSnanJunk _ => Pred is_any_nan0 [0]
+      end
+  | OFromStr, l =>
+      match m_parse RNE l with
+      | SList ol => Exact (fromstr_of ol)
+      | SGarbage => Pred (fun outs => match outs with [1; r] => is_default_qnan [r] | _ => false end) [0]
+      | SSnanJunk _ => Pred (fun outs => match outs with [1; r] => is_any_nan0 [r] | _ => false end) [0]
+      end
+  | OFromStr2, l =>
+      match m_parse RNE l with
+      | SList ol => Exact (map (fun oc => (fst oc, 0)) ol)
+      | SGarbage => Pred is_default_qnan [0]
+      | SSnanJunk _ => Pred is_any_nan0 [0]
+      end
+  | OFmt, [x] => Exact (m_fmt x)
+  | OOpArith o', [x; y] => Exact (repeat_out 5 (arith2 o' RNE x y))
+  | OOpNeg, [x] => Exact (repeat_out 2 (m_neg x))
+  | OSum, l => Exact (map (fun v => ([v; v], 0)) (fold_ops OAdd [ZERO_BITS] l))
+  | OProduct, l => Exact (map (fun v => ([v; v], 0)) (fold_ops OMul [ONE_BITS] l))
   | _, _ => Exact []
   end.
 
